@@ -302,6 +302,7 @@ type Run struct {
 	depth    int
 
 	serializationOnly bool
+	coords            []*coordEntry
 	generic           []Pred // genericity assumptions (lazily added to queries, see DESIGN §4.1)
 	genericK          map[string]bool
 	interned          []internEntry
